@@ -41,8 +41,10 @@ def levels(tier):
              "anchored": [None, (0, 2, "path1"), (1, 2, "path2"), (2, 1, "subdomain")]},
             {"name": "rmrule", "pools": ["a"], "n": 2, "alphabet": ["page", "rmrule"], "defaults": ["domain"], "anchored": [(1, 3, "path1")],
              "tpool": [0, 1]},
-            {"name": "reopen", "pools": ["a"], "n": 2, "prelude": [["page", 1, False]], "alphabet": ["page", "delwe", "reopen"], "defaults": ["domain"],
-             "anchored": [(1, 3, "path1")], "backend": "file"},
+            {"name": "reopen", "pools": ["a"], "n": 2, "prelude": [["page", 1, False]], "alphabet": ["page", "delwe", "reopen", "overwrite"], "defaults": ["domain"],
+             "anchored": [(1, 3, "path1")], "backend": "file", "overwrite_keeps_rules": True},
+            {"name": "deep-anchor", "pools": ["a"], "n": 1, "alphabet": ["page"], "defaults": ["subdomain", "path1"],
+             "anchored": [(2, 4, "domain"), (2, 5, "subdomain")]},
         ]
     return [
         {"name": "special-hosts-wide", "pools": ["s"], "n": 2, "alphabet": ["page", "we"], "defaults": ["domain", "subdomain", "path1", "path2"],
@@ -167,7 +169,7 @@ def harness(E):
         if kind == "we":
             E.reach("hand-made-webentity")
             continue
-        if kind in ("delwe", "reopen", "rmrule"):
+        if kind in ("delwe", "reopen", "rmrule", "overwrite"):
             continue
         if kind == "rule":
             _T[0] = h.t
